@@ -324,6 +324,65 @@ def op6(ctx):
     yield Ob(key_of("C09-Op6", b2.path, "no-set_len"), not n, "read-only open never calls set_len", b2.loc())
 
 
+@rule("C09-Op11", "C09", 2, "Options::open sizes (File::set_len) only a file it has just created, and reports `created` only for such a file: every path to a set_len call and "
+      "to an Ok((true, file)) return carries the evidence that the file is new - the create_new flag (the OS refuses an existing file) or a failed exists() test. An existing "
+      "arena opened with create(true) is never cut or grown to the capacity option before it has been validated (behind a mapping offset the cut removes the last bytes of "
+      "the arena and the later growth puts zeros there), and its header is never taken for a new one", configs=MEMCFG, also=("C05", "C06"))
+def op11(ctx):
+    import dnf as D
+    b = ctx.facts.one(r"options::Options>::open$|^options::Options::open$")
+    ev, res = ctx.eval(b)
+
+    def new_evidence(c):
+        for f in c:
+            if f[0] == "bool" and tag(f[1]) == "field" and f[1][2] == "create_new" and f[2] is True:
+                return True
+            if f[0] == "bool" and tag(f[1]) == "call" and f[1][1].endswith("::exists") and f[2] is False:
+                return True
+        return False
+
+    def judge(e, extra=()):
+        # the path condition of the site; a flag that was joined from several edges (`let created = a || (b && !exists)`) and is known to hold there - tested
+        # directly or through `capacity.filter(|_| created)` - is expanded into the ways it can hold
+        cond = [c for c in D.guard_dnf(list(ctx.guards_of(ev, e)) + list(extra)) if not D.conj_unsat(c)]
+        out = []
+        for c in cond:
+            alts = [c]
+            if e["body"] is b:
+                for f in sorted(c, key=repr):
+                    if f[0] == "bool" and tag(f[1]) in ("phi", "not"):
+                        exp = D.bool_dnf(ev, res, b, f[1], f[2])
+                        alts = [x | y for x in alts for y in exp if not D.conj_unsat(x | y)][:256]
+            out.extend(alts)
+        return bool(out) and all(new_evidence(c) for c in out), len(out)
+    sl = [e for e in res.log if e["kind"] == "call" and e["callee"].endswith("File::set_len")]
+    for i, e in enumerate(sl, 1):
+        ok, n = judge(e)
+        yield Ob(key_of("C09-Op11", b.path, "set_len-only-on-a-new-file", i), ok, "set_len(%s): %d path condition(s), each with create_new / !exists()" % (short(e["args"][1], 60), n), ctx.loc(e))
+    n_ret = 0
+    for r in res.log:
+        if r["kind"] != "ret0" or r["chain"]:
+            continue
+        v = r["value"]
+        oks = []
+        if tag(v) == "variant" and v[2] == "Ok":
+            oks = [v[3][0]]
+        elif tag(v) == "vsum":
+            oks = [p_[0] for n_, p_ in v[2] if n_ == "Ok" and p_]
+        for t in oks:
+            flag = t[1][0] if tag(t) == "tuple" and t[1] else None
+            if flag is None:
+                yield Ob(key_of("C09-Op11", b.path, "created-flag"), False, "Ok value is not a (created, file) pair: %s" % short(t, 80), ctx.loc(r))
+                continue
+            if is_const(flag) and flag.c == 0:
+                continue
+            n_ret += 1
+            extra = () if is_const(flag) else ((flag, ("eq", 1)),)
+            ok, n = judge(r, extra)
+            yield Ob(key_of("C09-Op11", b.path, "created-only-for-a-new-file", n_ret), ok, "Ok((%s, file)): %d path condition(s), each with create_new / !exists()" % (short(flag, 40), n), ctx.loc(r))
+    yield Ob(key_of("C09-Op11", b.path, "sites"), bool(sl) and n_ret >= 1, "%d set_len call(s), %d return(s) that can report a created file" % (len(sl), n_ret), b.loc())
+
+
 SAFE_MUTATOR_EXEMPT = {
     # effects that are not writes into the arena's backing memory
 }
